@@ -9,6 +9,49 @@ def stretch(cells, k):
         out += [c] * (k if c == 0 else 1)
     return out
 
+def two_filesystems(ctx, binary):
+    """Extent-mapping support belongs to the filesystem of each file, not to the process: a source on tmpfs (no FIEMAP)
+    copied in the same invocation before a sparse ext4 source must not make the latter lose its holes."""
+    import os, shutil, tempfile
+    from .. import fsmat, runner, tlc
+    from ..common import scratch
+    if not os.path.isdir("/dev/shm") or os.statvfs("/dev/shm").f_bsize == 0:
+        ctx.notes["two_filesystems"] = "skipped: no /dev/shm"
+        return
+    shm = tempfile.mkdtemp(prefix="xcp-verif-c11-", dir="/dev/shm")
+    root = os.path.join(scratch(), "c11-2fs"); os.makedirs(root, exist_ok=True)
+    try:
+        MIB = 1 << 20
+        fsmat.write_cells(os.path.join(shm, "t.bin"), [1, 0, 0, 0, 0, 0, 0, 1], MIB, fid=1)
+        cells = [1, 0, 0, 0, 0, 0, 0, 0, 0, 0, 0, 1, 0, 0, 0, 0, 0, 0, 0, 0, 1]
+        fsmat.write_cells(os.path.join(root, "e.bin"), cells, MIB, fid=1)
+        recs = []
+        for drv in ("parblock", "parfile"):
+            for w in (1, 4):
+                d = os.path.join(root, "dst-%s-%d" % (drv, w)); os.makedirs(d)
+                r = runner.run_xcp(binary, ["--driver", drv, "--workers", str(w), os.path.join(shm, "t.bin"), "e.bin", d], cwd=root, timeout=120)
+                dp = os.path.join(d, "e.bin")
+                sst = os.stat(os.path.join(root, "e.bin"))
+                obs = {"id": "two-fs/%s/w%d" % (drv, w), "len": len(cells), "cell": MIB, "tail": 0, "sruns": dataplane.runs_of(["D" if c else "Z" for c in cells]),
+                       "exit": r.exit if r.exit is not None else -9, "sblocks": sst.st_blocks, "smap": fsmat.data_map(os.path.join(root, "e.bin")), "fsblock": 4096,
+                       "holesDetectable": True, "slackBlocks": 8 + 8 * 3, "growBase": -1}
+                if os.path.exists(dp):
+                    n, cl, t, tc = fsmat.read_cells(dp, MIB, fid=1)
+                    obs.update({"dlen": n, "druns": dataplane.runs_of(dataplane.cls_of(cl)), "dtail": t, "dtailc": tc, "dblocks": os.stat(dp).st_blocks, "dmap": fsmat.data_map(dp)})
+                else:
+                    obs.update({"dlen": -1, "druns": [], "dtail": 0, "dtailc": 0, "dblocks": 0, "dmap": []})
+                recs.append(obs)
+        v, st = dataplane.judge(recs)
+        for o, vv in zip(recs, v):
+            ctx.traces += 1; ctx.case(o["id"], True)
+            for c in vv["viol"]:
+                if c in ("SPARSE", "GROWTH"):
+                    ctx.violation("C11: %s: sparse ext4 source copied after a tmpfs source lost its holes: src blocks=%d dst blocks=%d" % (o["id"], o["sblocks"], o["dblocks"]),
+                                  {"kind": "c11-2fs", "obs": o}, sig={"scenario": "two-fs"})
+        ctx.notes["two_filesystems"] = "%d runs (tmpfs source first, then sparse ext4 source)" % len(recs)
+    finally:
+        shutil.rmtree(shm, ignore_errors=True); shutil.rmtree(root, ignore_errors=True)
+
 def run(ctx):
     binary = build.xcp()
     quick = ctx.tier == "quick"
@@ -50,6 +93,13 @@ def run(ctx):
             b = add(name + "-base", cells, MIB, drv, MIB, 0, 2)
             g = add(name + "-x4", stretch(cells, 4), MIB, drv, MIB, 0, 2)
             pairs.append((b, g))
+    # short kernel counts inside a block that ends at a hole (the retry must not over-request)
+    for name, cells in (("inter", layouts["inter"]), ("lead", layouts["lead"])):
+        for drv in ("parfile", "parblock"):
+            for plan in (["cfr.nth=1:%d" % (768 * 1024)], ["cfr.max=%d" % (3 * MIB // 4)], ["cfr.rand=7"], ["cfr.max=1000003"]):
+                n += 1
+                sc = dataprop.layout("%s-short-%s#%d" % (name, drv, n), cells, 1, drv, reflink="never")
+                jobs.append((sc, dict(run_id="s%d" % n, cell=MIB, block_bytes=4 * MIB, workers=rnd.choice([1, 4]), plan=plan)))
     # more than 32 extents: two FIEMAP pages (64 KiB data pieces separated by 1 MiB holes)
     many = []
     for i in range(40 if quick else 70):
@@ -86,6 +136,7 @@ def run(ctx):
                               o["slackBlocks"], o["exit"], " ".join(o["_run"]["argv"])), rep, sig={"scenario": sc["id"].split("#")[0], "clause": c})
             else:
                 ctx.other.append({"clause": c, "id": o["id"]})
+    two_filesystems(ctx, binary)
     for sc, kw in jobs[:3]:
         ctx.sample({"cells(1=data,0=hole)": dataplane.layout_cells(sc), "cell_bytes": kw["cell"], "driver": sc["driver"], "block_bytes": kw["block_bytes"], "prior": sc["prior"]})
 
